@@ -183,10 +183,36 @@ pub fn run(ctx: &Ctx) -> Report {
         })
         .reduce(Acc::default, |a, b| a.merge(b));
     acc = acc.merge(acc_big);
+    // builder value for typed text attributes of every length 0..=763 (USERNAME 0..=513) followed by a
+    // FINGERPRINT, typed and after into_owned(): the value must be the RFC CRC and the parser must agree
+    let mut lens: Vec<Case> = Vec::new();
+    for len in 0..=763usize {
+        for k in [Kind::Software, Kind::Realm, Kind::Nonce, Kind::Username] {
+            if k == Kind::Username && len > 513 {
+                continue;
+            }
+            for own in [false, true] {
+                let mut ops = vec![Op::Typed(k, vec![b'a' + (len % 26) as u8; len])];
+                if own {
+                    ops.push(Op::IntoOwned);
+                }
+                ops.push(Op::Fp);
+                if let Ok(built) = crate::props::c03::build_prog(&Prog { class: 0, method: 1, tid: 77, ops }) {
+                    if built.results.iter().all(|r| r.is_ok()) {
+                        lens.push(Case::new("builder_value", built.bytes));
+                    }
+                }
+            }
+        }
+    }
+    let n_lens = lens.len() as u64;
+    let mut acc_l = crate::props::sweep(lens.into_par_iter(), judge);
+    acc_l.nontrivial += n_lens;
+    acc = acc.merge(acc_l);
     Report {
         acc,
         exhaustive: true,
-        rule: format!("8 bodies (one of ~300 bytes; thorough: one more of ~1150 bytes) x 4 sealing combinations ending in FINGERPRINT x 4 classes, built by the real builder; on each: the builder's CRC value vs the reference relation; every single-byte substitution (255 per byte, includes all single-bit flips); every burst of width 2..=32 at every start bit with both end bits set (all interior patterns up to width {full_w}, 3 shapes above); ~20 plausible alternative CRC values (byte-swapped, complemented, without the XOR constant, rotated, over other ranges or length fields); large messages with the FINGERPRINT starting at 65516..=65544 and around 256 / 4096 / 32768 x 2 classes with a stated subset of corruptions (every bit of the header, of the last 12 bytes and of every 509th byte, every value of the length-field and CRC bytes); distinct_nontrivial = fingerprinted messages"),
+        rule: format!("8 bodies (one of ~300 bytes; thorough: one more of ~1150 bytes) x 4 sealing combinations ending in FINGERPRINT x 4 classes, built by the real builder; on each: the builder's CRC value vs the reference relation; every single-byte substitution (255 per byte, includes all single-bit flips); every burst of width 2..=32 at every start bit with both end bits set (all interior patterns up to width {full_w}, 3 shapes above); ~20 plausible alternative CRC values (byte-swapped, complemented, without the XOR constant, rotated, over other ranges or length fields); large messages with the FINGERPRINT starting at 65516..=65544 and around 256 / 4096 / 32768 x 2 classes with a stated subset of corruptions (every bit of the header, of the last 12 bytes and of every 509th byte, every value of the length-field and CRC bytes); the builder value for typed text attributes of every length 0..=763 followed by a FINGERPRINT (typed and after into_owned()); distinct_nontrivial = fingerprinted messages"),
         bounds: json!({"messages": n_msgs, "burst_exhaustive_width": full_w, "burst_max_width": 32}),
         assumptions: vec!["mutants the reference decoder accepts (FINGERPRINT dissolved into other well-formed attributes) fall under C02, not C09".into()],
         ..Default::default()
